@@ -167,6 +167,15 @@ def check(ctx):
                     ctx.compare("R-PREFIX", f"{cfgp}: y_selected_ holds the targets of the initial picks in order", N, ctx.attr(st, o, "y_selected_"), ref.items[1], site_i, cfgp)
                 ctx.compare("R-PREFIX", f"{cfgp}: selected_idx_ holds the initial picks in order", N, ctx.attr(st, o, "selected_idx_"), ref.items[2], site_i, cfgp)
                 ctx.compare("R-PREFIX", f"{cfgp}: the counter equals the number of initial picks", N, ctx.attr(st, o, "n_selected_"), ref.items[3], site_i, cfgp)
+                # the distance tables as well: those of a search started at the first pick and advanced by the second
+                Ib, sb = ctx.interp(order=[("S", "<=", S)], assume=protocols.assume_default), State()
+                ob = ctx.construct(Ib, sb, cls, **ctor)
+                sb.heap[ob.obj.id]["_axis"] = vconst(axis)
+                sb.heap[ob.obj.id]["initialize"] = i0
+                ctx.call_method(Ib, sb, ob, "_init_greedy_search", X, yv, nreq)
+                ctx.call_method(Ib, sb, ob, "_update_post_selection", X, yv, i1)
+                for tab in ("hausdorff_", "hausdorff_at_select_"):
+                    ctx.compare("R-PREFIX", f"{cfgp}: {tab} is the table of the search that picked them one by one", N, ctx.attr(st, o, tab), ctx.attr(sb, ob, tab), site_i, cfgp)
         # (c) loop count of the whole fit
         I = ctx.interp(order=[("S", "<=", S)], assume=protocols.assume_default)
         st = State()
@@ -211,17 +220,20 @@ def check(ctx):
             # selected prefix preserved
             ctx.shape_is("R-PADPAIR", f"{c2}: selected_idx_ re-extended to the new request", post["selected_idx_"], ("S",), site, c2)
         # ------------- R-WARMGUARD --------------------------------------------------------------------
-        for case in ("never fitted", "empty"):
+        # (the flag may be a numpy boolean - the outcome of a comparison of numpy integers - as well as a Python one)
+        np_true = V("bool", T("const", True), shape=(), has_const=True, const_=True, labels=frozenset(["numpy-scalar"]))
+        for case in ("never fitted", "empty", "never fitted, numpy flag"):
             I = ctx.interp(assume=protocols.assume_default)
             st = State()
             o = ctx.construct(I, st, cls, **ctor)
             if case == "empty":
                 st.heap[o.obj.id]["n_selected_"] = vconst(0)
             lo = len(I.events)
-            ctx.call_method(I, st, o, "fit", arr("X", "N", "M"), arr("y", "N", "P"), warm_start=True)
+            ctx.call_method(I, st, o, "fit", arr("X", "N", "M"), arr("y", "N", "P"), warm_start=np_true if "numpy" in case else True)
             raises = [e for e in I.events[lo:] if e["kind"] == "raise" and e.get("short") == "GreedySelector.fit"]
             cont = [e for e in I.events[lo:] if e.get("short", "") and e.get("short", "").endswith("_continue_greedy_search")]
-            ctx.ob("R-WARMGUARD", f"{cfg}: warm_start on a {case} selector is rejected before any continuation", len(raises) >= 1 and not cont, f"{len(raises)} raise(s), {len(cont)} events inside _continue_greedy_search", fit_site, cfg)
+            inits = [e for e in I.events[lo:] if e.get("short", "") and e.get("short", "").endswith("_init_greedy_search")]
+            ctx.ob("R-WARMGUARD", f"{cfg}: warm_start on a {case} selector is rejected before any continuation", len(raises) >= 1 and not cont and not inits, f"{len(raises)} raise(s), {len(cont)} events inside _continue_greedy_search, {len(inits)} inside _init_greedy_search", fit_site, cfg)
         # ------------- warm loop count -------------------------------------------------------------------
         I = ctx.interp(order=[("Q", "<", "S")], assume=_assume_warm)
         st = State()
